@@ -303,10 +303,27 @@ class Interp:
             a = mdl['active']
             x0 = REGION[s.get('region', a)] - 5
             box = [x0, -5, x0 + 30, 30]
-            sel = lib(B + ['dask.cx'], lambda: ddf.cx[box[0]:box[2], box[1]:box[3]].compute())
+            lazy = lib(B + ['dask.cx'], lambda: ddf.cx[box[0]:box[2], box[1]:box[3]])
+            # cx keeps the active column: in the lazy result's own description (what every later spatial operation on it
+            # goes by), in each of its partitions, and in the computed frame
+            if type(lazy).__name__ != 'DaskGeoDataFrame':
+                raise Failure(B + ['dask.cx', 'type'], type(lazy).__name__)
+            nm = lib(B + ['dask.cx', 'geometry'], lambda: lazy.geometry.name)
+            if nm != a:
+                raise Failure(B + ['dask.cx', 'lazy-result-active-wrong'], f'{nm} expected {a} ({ddf.npartitions} partitions)')
+            names = lib(B + ['dask.cx', 'map_partitions'], lambda: list(lazy.map_partitions(lambda d: pd.Series([d.geometry.name]), meta=pd.Series([], dtype=object)).compute()))
+            if any(x != a for x in names):
+                raise Failure(B + ['dask.cx', 'partition-active-wrong'], f'{names} expected all {a}')
+            sel = lib(B + ['dask.cx'], lazy.compute)
             exp = sorted(mdl['ids'][i] for i in self.expected_cx(mdl, box))
             if sorted(sel['id']) != exp:
                 raise Failure(B + ['dask.cx', 'wrong-rows', 'active=' + a], f'ids={sorted(sel["id"])} expected {exp} box={box}')
+            if len(sel) and sel.geometry.name != a:
+                raise Failure(B + ['dask.cx', 'computed-active-wrong'], f'{sel.geometry.name} expected {a}')
+            ltb = lib(B + ['dask.cx', 'total_bounds'], lambda: tuple(lazy.geometry.total_bounds))
+            lref = model.ref_total_bounds(KIND[a], [self.el(a, rid) for rid in exp])
+            if not model.same_row(ltb, lref):
+                raise Failure(B + ['dask.cx', 'total_bounds-of-wrong-column'], f'{ltb} expected {lref} (active {a}, {ddf.npartitions} partitions)')
             pb = lib(B + ['partition_bounds'], lambda: ddf.geometry.partition_bounds)
             tb = (np.nanmin(pb['x0']), np.nanmin(pb['y0']), np.nanmax(pb['x1']), np.nanmax(pb['y1'])) if len(pb) else None
             ref = model.ref_total_bounds(KIND[a], [self.el(a, rid) for rid in mdl['ids']])
@@ -398,6 +415,12 @@ class Interp:
                 return
             ddf = dd.from_pandas(df, npartitions=2, sort=False)
             try:
+                others = [g for g in GEOMS if g in mdl['cols'] and g != a]
+                if s.get('prepack') and others:
+                    # a history: the frame was packed along another geometry column before the active one was selected
+                    g0 = others[s['prepack'] % len(others)]
+                    ddf = ddf.set_geometry(g0).pack_partitions(npartitions=2, p=s.get('p', 6)).set_geometry(a)
+                    self._labels.add('pack-after-pack-on-other-column')
                 packed = ddf.pack_partitions(npartitions=2, p=s.get('p', 6)).compute()
             except Exception:  # noqa: BLE001  - Dask cannot split degenerate distance sets: nothing claimed (C09)
                 self._labels.add('pack-raised')
@@ -489,7 +512,7 @@ def _step(draw):
     elif op == 'setgeom_same_then_inplace':
         s.update(which=draw(small))
     elif op == 'pack_partitions':
-        s.update(p=draw(st.integers(2, 10)))
+        s.update(p=draw(st.integers(2, 10)), prepack=draw(st.sampled_from([0, 0, 1, 2])))
     return s
 
 
